@@ -71,8 +71,11 @@ def run(ck):
             scen = [s for s in scen if s[0] not in ("never", "finished", "returned")]
         for _ in range(reps):
             for (c, k) in scen:
+                # the runner stays blocked for leak_ms after Abort and the caller must not return meanwhile; a few scenarios
+                # per program hold it for a long time (a bounded wait for the runner is then seen to expire)
+                long_hold = c in ("pre", "finished") or (c == "running" and k in (0, 2))
                 cases.append({"id": len(cases), "shape": shape, "src": src, "mode": "gated", "cancel": c, "k": k,
-                              "maxlog": TRACE_MAXSTEPS})
+                              "maxlog": TRACE_MAXSTEPS, "leak_ms": (400 if quick else 2500) if long_hold else 15})
     ngated = len(cases)
     # ---- R(B): free-running
     nfree = 300 if quick else 6000
